@@ -1,9 +1,128 @@
 import HedVerif.Driver.Util
+import HedVerif.Model.Compliance
 open Lean
 namespace HedVerif.Driver.C14
-open HedVerif HedVerif.Driver
+open HedVerif HedVerif.Driver HedVerif.Compliance
 
-/-- requests `{"op":"c14.<name>", ...}` of property C14 (stub: none yet) -/
-def handle (_op : String) (_j : Json) : Option (Except String Json) := none
+def secOf (s : String) : Except String Sec :=
+  match s with
+  | "tags" => pure .tags
+  | "unitClasses" => pure .unitClasses
+  | "units" => pure .units
+  | "unitModifiers" => pure .unitModifiers
+  | "valueClasses" => pure .valueClasses
+  | "attributes" => pure .attributes
+  | "properties" => pure .properties
+  | _ => .error s!"unknown section {s}"
+
+def valOf : Json → Except String AttrVal
+  | Json.null => pure .flag
+  | Json.str s => pure (.text s.toList)
+  | _ => .error "attribute value must be a string or null"
+
+def attrOfJson (j : Json) : Except String (Str × AttrVal) := do
+  match ← asArr j with
+  | [n, v] => pure (← asStr n, ← valOf v)
+  | _ => .error "attribute must be [name, value]"
+
+/-- entry: `[name, [[attr, value|null]…], description, owner, plural]` -/
+def entryOf (j : Json) : Except String Entry := do
+  match ← asArr j with
+  | [n, a, d, o, p] =>
+    pure { name := ← asStr n, attrs := ← (← asArr a).mapM attrOfJson, desc := ← asStr d, owner := ← asStr o,
+           plural := ← asStr p }
+  | _ => .error "entry must be [name, attrs, desc, owner, plural]"
+
+def schemaOf (j : Json) : Except String Schema := do
+  let h ← getVal j "header"
+  let secs ← getVal j "secs"
+  let get (k : String) : Except String (List Entry) := do (← getArr secs k).mapM entryOf
+  let tags ← get "tags"
+  let unitClasses ← get "unitClasses"
+  let units ← get "units"
+  let unitModifiers ← get "unitModifiers"
+  let valueClasses ← get "valueClasses"
+  let attributes ← get "attributes"
+  let properties ← get "properties"
+  pure { header := ⟨← getStr h "version", ← getStr h "library", ← getStr h "withStandard"⟩,
+         prologue := ← getStr j "prologue", epilogue := ← getStr j "epilogue",
+         sec := fun
+           | .tags => tags | .unitClasses => unitClasses | .units => units | .unitModifiers => unitModifiers
+           | .valueClasses => valueClasses | .attributes => attributes | .properties => properties }
+
+def envOf (j : Json) : Except String Env := do
+  let known ← (← getArr j "known").mapM fun r => do
+    match ← asArr r with
+    | [l, vs] => pure (← asStr l, ← (← asArr vs).mapM asStr)
+    | _ => .error "known: [library, [versions]]"
+  let ranges ← (← getArr j "ranges").mapM fun r => do
+    match ← asArr r with
+    | [l, lo, hi] => pure (← asStr l, ← asNat lo, ← asNat hi)
+    | _ => .error "ranges: [library, lo, hi]"
+  let prev ← (← getArr j "prev").mapM fun r => do
+    match ← asArr r with
+    | [l, Json.str t, n, v] => pure (← asStr l, ← secOf t, ← asStr n, ← asStr v)
+    | _ => .error "prev: [library, section, name, hedId]"
+  let uni ← (← getArr j "uni").mapM fun r => do
+    match ← asArr r with
+    | [Json.str c, Json.bool a, Json.bool u, Json.bool d] =>
+      match c.toList with
+      | [ch] => pure (ch, a, u, d)
+      | _ => .error "uni: one character"
+    | _ => .error "uni: [char, alnum, upper, digit]"
+  pure ⟨known, ranges, prev, uni⟩
+
+def faultOf (j : Json) : Except String Fault := do
+  let k ← getString j "k"
+  let i ← getNat j "i"
+  let t : Except String Sec := do secOf (← getString j "t")
+  let a : Except String String := getString j "a"
+  let v : Except String Str := getStr j "v"
+  match k with
+  | "dupNode" => pure (.dupNode i)
+  | "undeclared" => pure (.undeclared (← t) i (← a).toList)
+  | "missingRef" =>
+    let r ← match ← a with
+      | "unitClass" => pure RefAttr.unitClass
+      | "valueClass" => pure RefAttr.valueClass
+      | "suggestedTag" => pure RefAttr.suggestedTag
+      | "relatedTag" => pure RefAttr.relatedTag
+      | x => .error s!"missingRef attribute {x}"
+    pure (.missingRef r i (← v))
+  | "classAttr" =>
+    let c ← match ← a with
+      | "unitClass" => pure ClassAttr.unitClass
+      | "valueClass" => pure ClassAttr.valueClass
+      | "takesValue" => pure ClassAttr.takesValue
+      | x => .error s!"classAttr attribute {x}"
+    pure (.classAttr c i (← valOf (← getVal j "v")))
+  | "deprecatedFrom" => pure (.deprecatedFrom (← t) i (← v))
+  | "conversionFactor" => pure (.conversionFactor (← t) i (← v))
+  | "defaultUnits" => pure (.defaultUnits i (← v))
+  | "allowedCharacter" => pure (.allowedCharacter (← t) i (← v))
+  | "inLibrary" => pure (.inLibrary (← t) i (← v))
+  | "hedId" => pure (.hedId (← t) i (← v))
+  | _ => .error s!"unknown fault kind {k}"
+
+def issueJson (i : Issue) : Json :=
+  jarr [jstr i.code, jnat i.sev, jstr i.sec, jstr i.entry, jstr i.attr]
+
+def resultJson (env : Env) (s : Schema) : List (String × Json) :=
+  [("on", jarr ((check env s true).map issueJson)), ("off", jarr ((check env s false).map issueJson))]
+
+/-- `c14.run`: one schema, its environment, and a list of faults to seed; self-contained -/
+def handle (op : String) (j : Json) : Option (Except String Json) :=
+  match op with
+  | "c14.run" => some do
+    let s ← schemaOf (← getVal j "schema")
+    let env ← envOf (← getVal j "env")
+    let seeds ← (← getArr j "seeds").mapM faultOf
+    pure (jobj [
+      ("gen83", jbool (gen83 s)), ("stdRanges", jbool (stdRanges s)), ("compliant", jbool (compliantB env s)),
+      ("counts", jarr (secOrder.map fun t => jarr [jnat (s.sec t).length, jnat (visible s t).length])),
+      ("base", jobj (resultJson env s)),
+      ("seeds", jarr (seeds.map fun f =>
+        jobj (("adm", jbool (admissible env f s)) :: ("kind", Json.str (reprStr f.kind)) :: resultJson env (seed f s))))])
+  | _ => none
 
 end HedVerif.Driver.C14
